@@ -163,6 +163,8 @@ fn diff_text(d: &[String]) -> String {
 fn gen_history(rng: &mut Rng, len: usize, bias: u32, undo_redo: u64, flush: u64) -> Vec<Cmd> {
     let mut m = new_model();
     let mut cmds = vec![];
+    // two of three histories use the plain input profile (see `set_plain_inputs`)
+    set_plain_inputs(rng.chance(2, 3));
     // `do ; undo ; redo` probes: right after an operation (more often after one that writes a whole
     // rectangle: autofill, paste, clears, array formulas) the history undoes and redoes it, so that every
     // op kind is regularly undone/redone in the very state it ran in, not only some steps later
@@ -195,6 +197,12 @@ fn gen_history(rng: &mut Rng, len: usize, bias: u32, undo_redo: u64, flush: u64)
                             | Op::RangeClearContents { .. }
                             | Op::RangeClearAll { .. }
                             | Op::SetUserArrayFormula { .. }
+                            | Op::MoveRows { .. }
+                            | Op::MoveColumns { .. }
+                            | Op::InsertRows { .. }
+                            | Op::InsertColumns { .. }
+                            | Op::DeleteRows { .. }
+                            | Op::DeleteColumns { .. }
                     );
                     if rng.chance(if rect { 60 } else { 15 }, 100) {
                         // popped from the back: Undo first, then (often) Redo
@@ -216,6 +224,7 @@ fn gen_history(rng: &mut Rng, len: usize, bias: u32, undo_redo: u64, flush: u64)
         assert_eq!(Cmd::decode(&cmd.encode()).as_ref(), Some(&cmd), "codec round trip");
         cmds.push(cmd);
     }
+    set_plain_inputs(false);
     cmds
 }
 
@@ -316,6 +325,34 @@ fn shape(a: &Ar) -> &'static str {
     }
 }
 
+/// `-over-cse`: the fill target holds cells of a CSE array (the engine clears such arrays first);
+/// `-arrays`: otherwise, some array formula lives on the sheet (fills next to spills re-evaluate them).
+fn fill_qualifier(m: &M, target: &Ar, q: &mut String) {
+    let cse_anchor = |ws: &ironcalc_base::types::Worksheet, r: i32, c: i32| {
+        matches!(ws.cell(r, c), Some(Cell::ArrayFormula { kind: ironcalc_base::types::ArrayKind::Cse, .. }))
+    };
+    let mut over = false;
+    if let Ok(ws) = m.get_model().workbook.worksheet(target.sheet) {
+        for (r, data) in &ws.sheet_data {
+            for (c, cell) in data {
+                if !target.contains(*r, *c) {
+                    continue;
+                }
+                match cell {
+                    Cell::ArrayFormula { kind: ironcalc_base::types::ArrayKind::Cse, .. } => over = true,
+                    Cell::SpillCell { a, .. } if cse_anchor(ws, a.0, a.1) => over = true,
+                    _ => {}
+                }
+            }
+        }
+    }
+    if over {
+        q.push_str("-over-cse");
+    } else if area_has(m, &Ar::new(target.sheet, 1, 1, 64, 64), &|c| matches!(c, Cell::SpillCell { .. } | Cell::ArrayFormula { .. })) {
+        q.push_str("-arrays");
+    }
+}
+
 /// A qualifier derived from the op and the state *before* it runs.
 fn qualifier(m: &M, op: &Op) -> String {
     let wb = &m.get_model().workbook;
@@ -373,6 +410,16 @@ fn qualifier(m: &M, op: &Op) -> String {
                     q.push_str("-with-col-attrs");
                 }
             }
+        }
+        Op::AutoFillRows { area, to_row } => {
+            let last = area.row + area.height - 1;
+            let t = if *to_row > last { Ar::new(area.sheet, last + 1, area.col, area.width, *to_row - last) } else { Ar::new(area.sheet, *to_row, area.col, area.width, (area.row - *to_row).max(0)) };
+            fill_qualifier(m, &t, &mut q);
+        }
+        Op::AutoFillColumns { area, to_col } => {
+            let last = area.col + area.width - 1;
+            let t = if *to_col > last { Ar::new(area.sheet, area.row, last + 1, *to_col - last, area.height) } else { Ar::new(area.sheet, area.row, *to_col, (area.col - *to_col).max(0), area.height) };
+            fill_qualifier(m, &t, &mut q);
         }
         Op::MoveRows { sheet, .. } | Op::MoveColumns { sheet, .. } | Op::InsertRows { sheet, .. } | Op::InsertColumns { sheet, .. } => {
             // the known inexact undos of structural edits all involve array formulas on the sheet
